@@ -23,8 +23,37 @@ thread_local! {
     static LITERAL: Cell<u64> = Cell::new(0);
 }
 
+/// Prime-field element. The stored word is the residue XOR a seal constant, so that the all-zero bit pattern (and most
+/// other fabricated patterns: memset, `mem::zeroed`, `MaybeUninit`, a transmuted float) is NOT a valid element: the public
+/// numeric bound says nothing about representations, so generic code may only obtain values through the type's own
+/// operations (`zero()`, `one()`, `from_*`, arithmetic, `Copy`). Any operation on a fabricated word panics with the
+/// marker VF-FABRICATED, which the exact check reports as a violation of C14 ("uses only that type's ring operations").
 #[derive(Copy, Clone, Debug, PartialEq, Eq)]
-pub struct Fp(pub u64);
+pub struct Fp(u64);
+const SEAL: u64 = 0xA5C3_96E1_0000_0000;
+impl Fp {
+    #[inline]
+    pub fn new(v: u64) -> Fp {
+        Fp(v ^ SEAL)
+    }
+    /// the residue; panics on a word that no operation of this type can have produced
+    #[inline]
+    pub fn val(self) -> u64 {
+        let v = self.0 ^ SEAL;
+        if v >= p() {
+            fabricated(self.0);
+        }
+        v
+    }
+    /// residue without the validity check (for reporting)
+    pub fn raw(self) -> u64 {
+        self.0
+    }
+}
+#[cold]
+fn fabricated(word: u64) -> ! {
+    panic!("VF-FABRICATED: element with raw bits {:#018x} was not produced by any operation of the element type (zeroed / uninitialised / reinterpreted memory)", word);
+}
 
 #[inline]
 fn p() -> u64 {
@@ -317,7 +346,7 @@ fn decode(x: f64) -> Fp {
         Ok(v)
     });
     match r {
-        Ok(v) => Fp(v),
+        Ok(v) => Fp::new(v),
         Err(true) => {
             AMBIGUOUS.with(|c| c.set(c.get() + 1));
             panic!("VF-AMBIGUOUS: constant {:e} has two different exact meanings on the twiddle grid", x);
@@ -334,8 +363,8 @@ impl Add for Fp {
     #[inline]
     fn add(self, o: Fp) -> Fp {
         let p = p();
-        let s = self.0 + o.0;
-        Fp(if s >= p { s - p } else { s })
+        let s = self.val() + o.val();
+        Fp::new(if s >= p { s - p } else { s })
     }
 }
 impl Sub for Fp {
@@ -343,21 +372,25 @@ impl Sub for Fp {
     #[inline]
     fn sub(self, o: Fp) -> Fp {
         let p = p();
-        Fp(if self.0 >= o.0 { self.0 - o.0 } else { self.0 + p - o.0 })
+        let (a, b) = (self.val(), o.val());
+        Fp::new(if a >= b { a - b } else { a + p - b })
     }
 }
 impl Mul for Fp {
     type Output = Fp;
     #[inline]
     fn mul(self, o: Fp) -> Fp {
-        Fp(mulmod(self.0, o.0, p()))
+        Fp::new(mulmod(self.val(), o.val(), p()))
     }
 }
 impl Neg for Fp {
     type Output = Fp;
     #[inline]
     fn neg(self) -> Fp {
-        Fp(if self.0 == 0 { 0 } else { p() - self.0 })
+        {
+            let a = self.val();
+            Fp::new(if a == 0 { 0 } else { p() - a })
+        }
     }
 }
 impl Div for Fp {
@@ -365,10 +398,10 @@ impl Div for Fp {
     fn div(self, o: Fp) -> Fp {
         DIVS.with(|c| c.set(c.get() + 1));
         let p = p();
-        if o.0 == 0 {
+        if o.val() == 0 {
             forbid("division by zero");
         }
-        Fp(mulmod(self.0, powmod(o.0, p - 2, p), p))
+        Fp::new(mulmod(self.val(), powmod(o.val(), p - 2, p), p))
     }
 }
 impl Rem for Fp {
@@ -379,15 +412,15 @@ impl Rem for Fp {
 }
 impl Zero for Fp {
     fn zero() -> Fp {
-        Fp(0)
+        Fp::new(0)
     }
     fn is_zero(&self) -> bool {
-        self.0 == 0
+        self.val() == 0
     }
 }
 impl One for Fp {
     fn one() -> Fp {
-        Fp(1)
+        Fp::new(1)
     }
 }
 impl Num for Fp {
@@ -416,10 +449,10 @@ impl Signed for Fp {
 impl FromPrimitive for Fp {
     fn from_i64(n: i64) -> Option<Fp> {
         let p = p();
-        Some(if n >= 0 { Fp(n as u64 % p) } else { Fp((p - ((-(n as i128)) as u64 % p)) % p) })
+        Some(if n >= 0 { Fp::new(n as u64 % p) } else { Fp::new((p - ((-(n as i128)) as u64 % p)) % p) })
     }
     fn from_u64(n: u64) -> Option<Fp> {
-        Some(Fp(n % p()))
+        Some(Fp::new(n % p()))
     }
     fn from_f64(x: f64) -> Option<Fp> {
         Some(decode(x))
@@ -443,6 +476,8 @@ pub fn classify_msg(msg: &str) -> &'static str {
         "undecodable"
     } else if msg.starts_with("VF-AMBIGUOUS") {
         "ambiguous"
+    } else if msg.starts_with("VF-FABRICATED") {
+        "fabricated"
     } else if msg.starts_with("VF-FORBIDDEN") {
         "forbidden"
     } else {
@@ -547,7 +582,7 @@ mod tests {
         });
         // 0.5 = cos(2 pi /6) must decode to 1/2
         let half = Fp::from_f64(0.5).unwrap();
-        assert_eq!((half + half).0, 1);
+        assert_eq!((half + half).val(), 1);
         let x: Vec<C2> = (0..7).map(|i| C2 { re: i + 1, im: 2 * i }).collect();
         let y = exact_dft(&x, false).unwrap();
         assert_eq!(functional_check(&x, &y, false, 3), Some(true));
